@@ -360,6 +360,41 @@ func findWriteLoop(c *Ctx) *writeLoop {
 		})
 	}
 	if found == nil {
+		// the write step may live in a helper that is handed the element: H(.., tx.pendingWrites[i], ..) with
+		// p.Encode() inside H. The call to H then stands for the Encode event in the loop function.
+		for _, h := range c.P.ModCone(commit) {
+			calls(h, func(ci ssa.CallInstruction) {
+				cc := ci.Common()
+				if found != nil || !calleeIs(cc, modPath, "Entry", "Encode") {
+					return
+				}
+				p, ok := resolve1(cc.Args[0]).(*ssa.Parameter)
+				if !ok {
+					return
+				}
+				pi := paramIndex(h, p)
+				for _, s := range c.P.CallersOf(h) {
+					call, ok := s.(*ssa.Call)
+					if !ok || pi >= len(s.Common().Args) {
+						continue
+					}
+					ent := resolve1(s.Common().Args[pi])
+					ld, ok := ent.(*ssa.UnOp)
+					if !ok {
+						continue
+					}
+					ia, ok := ld.X.(*ssa.IndexAddr)
+					if !ok || !isFieldLoad(ia.X, "Tx", "pendingWrites") {
+						continue
+					}
+					if found == nil {
+						found = &writeLoop{fn: s.Parent(), encode: call, entry: ent, idx: ia.Index, idxAddr: ia}
+					}
+				}
+			})
+		}
+	}
+	if found == nil {
 		fail("commit write loop not found: no (*Entry).Encode call on an element of tx.pendingWrites in the cone of (*Tx).Commit")
 	}
 	return found
